@@ -107,10 +107,13 @@ def law_tensordot(ch):
         if not preserve and mode != "fused":
             # the documented default is preserve_array=False: leave it out
             del kw["preserve_array"]
+        # (the documented default axes=2 is left out)
+        pos = () if (form == "int" and ncon == 2 and mode != "fused") \
+            else (axes_arg,)
         if disp == "sr":
-            res = must(sr.tensordot, a, b, axes_arg, what=sig, **kw)
+            res = must(sr.tensordot, a, b, *pos, what=sig, **kw)
         else:
-            res = must(ar.do, "tensordot", a, b, axes_arg, what=sig, **kw)
+            res = must(ar.do, "tensordot", a, b, *pos, what=sig, **kw)
         if isinstance(res, sr.AbelianArray):
             require(type(res) is type(a), sig + ":class",
                     lambda: f"{type(res)} from {type(a)}")
